@@ -82,11 +82,12 @@ def c21wStep (ms : Option MSt) (line : String) : Option MSt × String :=
           let (pre, ty) : List (String × Ev) × String :=
             match o with
             | ["popen", ty, n, _] => (match parseInt n with | some n => [(ty, Ev.peerOpen n limitErr)] | none => [], ty)
+            | ["pframe", ty, n, _] => (match parseInt n with | some n => [(ty, Ev.peerOpen n limitErr)] | none => [], ty)
             | ["pmax", ty, v] => (match parseInt v with | some v => [(ty, Ev.peerMax v)] | none => [], ty)
             | ["nstream", ty] => ([], ty)
             | _ => ([], "b")
           let evs := evs.map fun (t, e) => (if t == "?" then ty else t, e)
-          if otherClose ∨ (limitErr ∧ o.head? ≠ some "popen") then (ms, "reject unexpected-connection-close") else
+          if otherClose ∨ (limitErr ∧ o.head? ≠ some "popen" ∧ o.head? ≠ some "pframe") then (ms, "reject unexpected-connection-close") else
           let (m', r) := feedAll m (pre ++ evs)
           (some m', match r with | none => "ok" | some w => "reject " ++ w)
   | _ => (ms, "reject malformed-line")
